@@ -282,7 +282,7 @@ def check_c30(ctx):
     ctx.traces(runs)
     ctx.cov["constants"]["recorded"] = {"runs": runs, "events": len(events)}
     fe = [e for e in events if e["ev"] == "field"]
-    ctx.sample({"recorded_event": {k: fe[len(fe) // 2][k] for k in ("f", "reps", "wire", "emax", "dmax")}})
+    ctx.sample({"recorded_event": {k: fe[len(fe) // 2].get(k) for k in ("f", "reps", "wire", "emax", "dmax")}})
     for cid in {e["cid"] for e in events}:
         ctx.count(["recorded", ctx.seed, cid])
 
